@@ -28,7 +28,11 @@ Templates == <<
    [raw |-> <<"$","(",NL,SP,SP,"$","A",NL,")">>,
     items |-> Lits(<<"$","(",NL,SP,SP>>) \o <<V(A, 2)>> \o Lits(<<NL,")">>)],
    [raw |-> <<"$","1",".","$","(",NL,SP,"$","A",",",NL,SP,SP,SP,"$","A",")">>,
-    items |-> Lits(<<"$","1",".","$","(",NL,SP>>) \o <<V(A, 2)>> \o Lits(<<",",NL,SP,SP,SP>>) \o <<V(A, 2)>> \o Lits(<<")">>)]
+    items |-> Lits(<<"$","1",".","$","(",NL,SP>>) \o <<V(A, 2)>> \o Lits(<<",",NL,SP,SP,SP>>) \o <<V(A, 2)>> \o Lits(<<")">>)],
+   \* templates WITHOUT any variable, on several lines: their continuation lines are shifted to the match site like any
+   \* other template's (one of them with a lone sigil)
+   [raw |-> <<"h","(",NL,SP,SP,"1",NL,")">>, items |-> Lits(<<"h","(",NL,SP,SP,"1",NL,")">>)],
+   [raw |-> <<"$","(",NL,SP,"x",",",NL,"y",")">>, items |-> Lits(<<"$","(",NL,SP,"x",",",NL,"y",")">>)]
 >>
 
 Init == /\ site \in 0..MaxSite /\ own \in BOOLEAN /\ tpl \in 1..Len(Templates)
